@@ -428,8 +428,13 @@ def run(ck):
                   "older queued items are reported as cancelled, the newest becomes `data` and is run"
                   if ok else "the run is not started with the most recent event", cc, mk[0].ast)
         gth = [a for a in own_nodes(cs.node) if isinstance(a, ast.Await) and call_name(a.value) == 'gather']
-        ck.ob(R5, f"{cs.fid} :: gathered", len(gth) == 1, "all started tasks are gathered after the "
-              "sentinel" if len(gth) == 1 else "start mode does not wait for its tasks", cs, cs.node)
+        wall = len(gth) == 1 and any(k.arg == 'return_exceptions' and isinstance(k.value, ast.Constant)
+                                     and k.value.value is True for k in gth[0].value.keywords)
+        ck.ob(R5, f"{cs.fid} :: gathered", len(gth) == 1 and wall, "all started tasks are gathered after the "
+              "sentinel, whatever their outcome (return_exceptions=True)" if len(gth) == 1 and wall else
+              ("start mode does not wait for its tasks" if len(gth) != 1 else
+               "gather() without return_exceptions=True: a failing run ends the wait for the others, the "
+               "stop_data run is never started and the other runs outlive the stop"), cs, cs.node)
         # every path from a task creation to the exit passes the gather; the only accepted way round
         # it is the false outcome of a truth test of the very container the tasks were added to
         mks = nodes_where(gst, lambda n: any(call_name(c) in ('create_task', 'ensure_future') for c in node_calls(n)))
